@@ -256,6 +256,7 @@ fn clean_bounds(bounds: &syn::punctuated::Punctuated<syn::TypeParamBound, syn::T
                 let head = tb.path.segments.last().map(|s| s.ident.to_string()).unwrap_or_default();
                 if DROP_BOUNDS.contains(&head.as_str()) { cx.fire("D4"); continue; }
                 let mut p = tb.path.clone();
+                rewrite::strip_bound_prefix(&mut p, cx);
                 rewrite::map_path_types(&mut p, cx);
                 let s = cx.unit.map_bound(&p.to_token_stream().to_string());
                 match s { Some(ts) => out.push(ts), None => out.push(p.to_token_stream()) }
@@ -350,8 +351,8 @@ fn extract_fn(cx: &mut Ctx, specs: &mut Specs, em: &mut Emitter, ex: &Extract) {
     let found = find_fn(&file, &ex.path, 0);
     let found: Vec<Found> = match ex.opt("nth").and_then(|n| n.parse::<usize>().ok()) { Some(n) => found.into_iter().skip(n).take(1).collect(), None => found };
     if found.len() != 1 { cx.err(format!("lost anchor: {} `{}` in {}: {} candidates", ex.kind, ex.path, ex.file, found.len())); return; }
-    if ex.opt("poll").as_deref() == Some("yes") {
-        // A6: the poll of `impl Future for T` becomes the inherent method `T::await_`
+    if ex.opt("poll").as_deref() == Some("yes") || ex.opt("inherent").as_deref() == Some("yes") {
+        // A6: the poll of `impl Future for T` becomes the inherent method `T::await_`; S2: `Drop::drop` is verified as an inherent method
         let mut fd = Found { im: found[0].im.clone(), tr: None, f: found[0].f.clone() };
         if let Some(im) = &mut fd.im { im.trait_ = None; }
         emit_fn(cx, specs, em, ex, &file, &fd, None);
@@ -493,6 +494,7 @@ fn emit_fn(cx: &mut Ctx, specs: &mut Specs, em: &mut Emitter, ex: &Extract, file
     rw.lift_prefix = { let p = match ex.opt("key") { Some(k) => k.replace("::", "__").replace('@', "_"), None => ex.path.rsplit('@').next().unwrap().replace("::", "__") }; if lifted { format!("{}__async", p) } else { p } };
     rw.typed_ctors = specs.sections.keys().filter_map(|k| k.strip_prefix("sig ").map(|s| s.to_string())).collect();
     rw.typed_caps = specs.sections.keys().filter_map(|k| k.strip_prefix("captype ").map(|s| s.to_string())).collect();
+    for inp in &f.sig.inputs { if let syn::FnArg::Typed(pt) = inp { if let syn::Pat::Ident(pi) = &*pt.pat { if let syn::Type::ImplTrait(it) = &*pt.ty { if it.bounds.iter().any(|b| if let syn::TypeParamBound::Trait(tb) = b { tb.path.segments.last().map(|s| s.ident == "Into").unwrap_or(false) } else { false }) { rw.into_params.insert(pi.ident.to_string()); } } } } }
     for inp in &f.sig.inputs { if let syn::FnArg::Typed(pt) = inp { if let syn::Pat::Ident(pi) = &*pt.pat { let mut ty = (*pt.ty).clone(); let mut lt = vec![]; rewrite::map_param_type(&mut ty, rw.cx, &mut lt); rw.local_types.insert(pi.ident.to_string(), tidy(&ty.to_token_stream().to_string())); } } }
     rw.gen_idents = {
         let mut gs: Vec<syn::Generics> = vec![]; if let Some(im) = &fd.im { gs.push(im.generics.clone()); } if let Some(g) = &tr_generics { gs.push(g.clone()); } gs.push(f.sig.generics.clone());
@@ -584,6 +586,21 @@ fn emit_fn(cx: &mut Ctx, specs: &mut Specs, em: &mut Emitter, ex: &Extract, file
     em.functions.push(emit::FnInfo { name: name.clone(), file: ex.file.clone(), src_line, gen_start: fn_start, gen_end: fn_end, kind: ex.kind.clone(), path: ex.path.clone(), loops: nloops, captured: captured.iter().map(|c| c.0.clone()).collect() });
     for (id, wh) in probes { em.probes.push((id, name.clone(), wh)); }
     em.raw("");
+    // ---- what a lifted loop future captures (its parameters ARE its capture list): obligations on their joined ownership view
+    if lifted { if let Some(cl) = specs.get(&format!("captures {}", name)) {
+        let ps: Vec<String> = params.iter().filter(|p| !p.starts_with("Tracked(")).map(|p| p.trim_start_matches("mut ").to_string()).collect();
+        let names: Vec<String> = ps.iter().map(|p| p.split(':').next().unwrap().trim().to_string()).collect();
+        let mut own = String::from("own_none()"); for n in &names { own = format!("own_join({}, own_of(&{}))", own, n); }
+        let start = em.line();
+        em.raw(&format!("pub open spec fn {}__captured_view{}({}) -> Own{} {{ {} }}", name, gtxt, ps.join(", "), wtxt, own));
+        em.raw(&format!("pub proof fn {}__captures{}({}){}", name, gtxt, ps.join(", "), wtxt));
+        let gi: Vec<String> = { let clg = closure_generics(&gens, cx); gens.iter().flat_map(|g| g.params.iter().filter_map(|p| if let syn::GenericParam::Type(t) = p { Some(t.ident.to_string()) } else { None }).collect::<Vec<_>>()).filter(|n| !clg.contains_key(n)).collect() };
+        let tf = if gi.is_empty() { String::new() } else { format!("::<{}>", gi.join(", ")) };
+        em.raw_block(&cl.replace("$VIEW", &format!("{}__captured_view{}({})", name, tf, names.join(", "))), "");
+        em.raw(&format!("{{ {} }}", if cx.unit.broadcasts.is_empty() { String::new() } else { format!("broadcast use {};", cx.unit.broadcasts.join(", ")) }));
+        em.functions.push(emit::FnInfo { name: format!("{}__captures", name), file: ex.file.clone(), src_line, gen_start: start, gen_end: em.line(), kind: "fn".into(), path: ex.path.clone(), loops: 0, captured: captured.iter().map(|c| c.0.clone()).collect() });
+        em.raw("");
+    } }
     // ---- closures / async blocks used as values (rules L1, A3)
     let mut all_gens: Vec<&syn::Generics> = vec![];
     let ig2; if let Some(im) = &fd.im { ig2 = im.generics.clone(); all_gens.push(&ig2); }
